@@ -154,6 +154,11 @@ func runC14(env *core.Env) {
 		for _, p := range pruned {
 			cands = append(cands, cand{p, "pruned"})
 		}
+		// a live epic id with surrounding white space or in lower case: whether ergo takes it for the epic or refuses it is
+		// not judged - but if it accepts, the task must end up under a live epic (the state invariant below)
+		if len(epics) > 0 {
+			cands = append(cands, cand{epics[0] + " ", "odd-spelling"}, cand{"\t" + epics[0], "odd-spelling"}, cand{epics[0] + "\n", "odd-spelling"}, cand{strings.ToLower(epics[0]), "odd-spelling"})
+		}
 		var out []core.Req
 		tombs := strings.Count(string(n.Store.Log()), `"type":"tombstone"`)
 		if len(tasks) < maxTasks && tombs <= 3 {
@@ -273,6 +278,13 @@ func runC14(env *core.Env) {
 			return
 		}
 		classes.inc(fmt.Sprintf("%s/%s arg=%s exit0=%v", op.Cmd, op.Mode, op.ArgClass, res.Exit == 0))
+		if op.ArgClass == "odd-spelling" && op.Cmd != "set-epic" && op.Cmd != "new-epic" {
+			classes.inc(fmt.Sprintf("%s/%s arg=%s exit0=%v", op.Cmd, op.Mode, op.ArgClass, res.Exit == 0))
+			if res.Exit != 0 && string(after.Log()) != string(n.Store.Log()) {
+				report(env, fmt.Sprintf("C14 kind=rejected-but-changed cmd=%s arg=%s", op.Cmd, op.ArgClass), req.Shell()+" exits non-zero but the log changed", mkTrace(n.Store, "rejected request changed the store", []core.Req{req}, Assert{Kind: "exit_nonzero", Step: 1}, Assert{Kind: "log_differs", Step: 1, Other: 0}))
+			}
+			return
+		}
 		bad := op.ArgClass == "plain-task" || op.ArgClass == "unknown" || op.ArgClass == "pruned" || op.ArgClass == "own-id"
 		if op.Cmd == "set-epic" || op.Cmd == "new-epic" {
 			bad = true // epics never belong to anything, whatever the argument
